@@ -125,3 +125,48 @@ func TestVerifReplayC09(t *testing.T) {
 		rec(cap, nil)
 	}
 }
+
+// TestVerifBoundedC09: the same search as a standing bounded stand-in (run on every check; it is what decides when the
+// contract of an LRU function no longer matches the code's shape). Every operation sequence up to the bound is compared
+// step by step with a reference LRU.
+func TestVerifBoundedC09(t *testing.T) {
+	if os.Getenv("VERIF_BOUNDED") == "" {
+		t.Skip("bounded stand-in: run by govc")
+	}
+	maxLen := 5
+	if os.Getenv("VERIF_TIER") == "thorough" {
+		maxLen = 6
+	}
+	var alphabet []string
+	for _, k := range []string{"a", "b", "c"} {
+		alphabet = append(alphabet, "S:"+k+":1", "S:"+k+":2", "L:"+k, "D:"+k)
+	}
+	n, viol := 0, 0
+	var rec func(cap int, ops []string)
+	rec = func(cap int, ops []string) {
+		if viol >= 3 {
+			return
+		}
+		if len(ops) > 0 {
+			n++
+			if msg, bad := c09Run(cap, ops); bad {
+				viol++
+				fmt.Println("BOUNDED-VIOLATION name=C09.sequences " + msg)
+				return
+			}
+		}
+		if len(ops) == maxLen {
+			return
+		}
+		for _, a := range alphabet {
+			rec(cap, append(append([]string{}, ops...), a))
+		}
+	}
+	for cap := 0; cap <= 3; cap++ {
+		rec(cap, nil)
+	}
+	fmt.Printf("BOUNDED name=C09.sequences cases=%d bound=every sequence of <= %d operations (Store of 2 values / Load / Delete on 3 keys) on capacities 0..3, each step compared with a reference LRU: results, Len, capacity bound, eviction victim and callback log\n", n, maxLen)
+	if viol > 0 {
+		t.Fatalf("%d violations", viol)
+	}
+}
